@@ -332,6 +332,16 @@ func raceSites(logPrefix, srcRoot string) []string {
 	return out
 }
 
+func firstLine(s string, n int) string {
+	if i := strings.IndexByte(s, '\n'); i >= 0 {
+		s = s[:i]
+	}
+	if len(s) > n {
+		s = s[:n]
+	}
+	return s
+}
+
 var leakedRuns int
 
 // judge minimises, confirms and classifies the failing runs. It returns the
@@ -384,6 +394,12 @@ func judge(prop string, seed uint64, failures []Replay, info *prepInfo, bins map
 			// phase (no shared state by construction) decides.
 			leaked++
 			seenClass[key]--
+			fmt.Printf("NOTE: set aside (did not reproduce alone): subseed %s class %s: %s\n", f.Subseed, f.Class, firstLine(f.Message, 300))
+			if d := os.Getenv("VERIF_KEEP_SETASIDE"); d != "" {
+				if b, err := json.MarshalIndent(f, "", " "); err == nil {
+					os.WriteFile(filepath.Join(d, fmt.Sprintf("setaside-%s-%s.json", prop, f.Subseed)), b, 0o644)
+				}
+			}
 			continue
 		}
 		min, tried := minimise(bin, f, dir, realDir, 90*time.Second, 220)
